@@ -338,3 +338,60 @@ def multisection_wiring(env, nsec):
             env.holds("C19,C18,C14", "multi-section wiring: %s <- section %d (%s)" % (tgt.split(".", 1)[1], k, src.split(".", 1)[1]), ok, "connected to %s" % got)
     secs = p.model.g.surface_unification.options["sections"]
     env.holds("C19,C14", "the unification component is built for the sections in the listed order", [s["name"] for s in secs] == names, str([s["name"] for s in secs]))
+
+
+def _aero_keys_read():
+    """surface-dictionary keys read by the aerodynamic components and functionals (syntax trees of the current sources)"""
+    import ast
+    import os
+    import openaerostruct
+    root = os.path.dirname(openaerostruct.__file__)
+    keys = set()
+    for sub in ("aerodynamics", "functionals"):
+        for fn in sorted(os.listdir(os.path.join(root, sub))):
+            if not fn.endswith(".py") or fn in ("aero_groups.py",):
+                continue
+            tree = ast.parse(open(os.path.join(root, sub, fn)).read())
+            for n in ast.walk(tree):
+                if isinstance(n, ast.Subscript) and isinstance(n.slice, ast.Constant) and isinstance(n.slice.value, str):
+                    b = n.value
+                    if (isinstance(b, ast.Name) and b.id in ("surface", "surf", "surf_dict")) or \
+                            (isinstance(b, ast.Attribute) and b.attr == "surface"):
+                        keys.add(n.slice.value)
+                if isinstance(n, ast.Call) and isinstance(n.func, ast.Attribute) and n.func.attr == "get" and n.args \
+                        and isinstance(n.args[0], ast.Constant) and isinstance(n.args[0].value, str):
+                    b = n.func.value
+                    if (isinstance(b, ast.Name) and b.id in ("surface", "surf", "surf_dict")) or \
+                            (isinstance(b, ast.Attribute) and b.attr == "surface"):
+                        keys.add(n.args[0].value)
+    return keys
+
+
+@job("c19.multisection_keys", ("C19", "C08", "C18"))
+def multisection_keys(env):
+    """a multi-section surface handed to the analysis point is replaced by one surface dictionary with the unified mesh: that
+    dictionary carries every key the aerodynamic components read (found in their syntax trees) with the user's value - ground
+    plane, drag options, offsets and coefficients included - so the unified surface is analysed under the user's options"""
+    import openmdao.api as om
+    from openaerostruct.aerodynamics.aero_groups import AeroPoint
+    from openaerostruct.geometry.geometry_mesh_gen import generate_mesh as gen_multi
+    nsec = 2
+    user = dict(name="wing", is_multi_section=True, num_sections=nsec, sec_name=["s0", "s1"], symmetry=True, S_ref_type="projected",
+                ref_axis_pos=0.4, taper=[0.8, 0.9], span=[2.0, 2.5], sweep=[0.0, 0.0], root_chord=1.0, meshes="gen-meshes", nx=2, ny=[3, 3],
+                CL0=0.07, CD0=0.011, with_viscous=True, with_wave=True, groundplane=True, k_lam=0.1, c_max_t=0.33,
+                t_over_c_cp=[np.array([0.1]), np.array([0.14])])
+    mesh, _ = gen_multi(user)
+    user["mesh"] = mesh
+    tail = surface(name="tail", nx=2, ny=3, symmetry=True, side="left", groundplane=True, xshift=4.0)
+    read = _aero_keys_read()
+    env.holds("C19", "the scan of the aerodynamic sources found the dictionary keys they read", {"groundplane", "CL0", "with_viscous", "mesh"} <= read, str(sorted(read)))
+    surfs = [dict(user), tail]
+    p = om.Problem(reports=False)
+    p.model.add_subsystem("ap", AeroPoint(surfaces=surfs))
+    p.setup()
+    built = p.model.ap.options["surfaces"][0]
+    for k in sorted(read & set(user)):
+        same = k in built and (np.array_equal(np.asarray(built[k], dtype=object), np.asarray(user[k], dtype=object)) if not isinstance(user[k], list)
+                               else all(np.array_equal(a, b) for a, b in zip(built[k], user[k])))
+        env.holds("C19,C08,C18", "multi-section surface: key '%s' read by the aerodynamic components reaches them with the user's value" % k,
+                  same, "user %r, analysis point %r" % (user.get(k), built.get(k, "<absent>")))
